@@ -8,7 +8,7 @@ import Driver.Util
      jFin | jLoadM 0|1 | jSetJ | jPub 0|1
      rLoadM 0|1 | rReset | rReady | rClear | rPush | rPub
      cancel | getState 0|1 | push
-     nRoot | nLoadReq <j> <c> | nSetFin | nSetExit | nRun | nRunExit | nFinish | nMTerm | nPubTerm
+     nRoot <cancelled 0|1> | nLoadReq <j> <c> | nSetFin | nSetExit | nRun | nRunExit | nFinish | nMTerm | nPubTerm
      lock T|C <st> | relock T|C <st> | wait T|C <st> | unlock T|C <st> | signal T|C T|C|none <st> | pjoin
        (<st> = the context state word as read by the thread that performed the pthread operation)
 
@@ -17,8 +17,9 @@ import Driver.Util
        for the acting thread; the state word observed at the next pthread operation must equal the model's;
      * the entry into a context function (`ctx call`, before the caller's `lock`) and the return of thread_f (`ctx ret`,
        before the native thread's `lock`);
-     * the native thread's start-up assertion and the start of the main scheduler when they happened before the stream
-       had a name in the trace (`ctx tau T` at start, `nRoot`): inserted before the first scheduler-level line;
+     * the native thread's start-up assertion (`ctx tau T` at start; a plain read): inserted before the first
+       scheduler-level line (the projection places an `nRoot 0` that happened before the stream had a name in the
+       trace directly after `init`);
      * `nFinish` (the main scheduler's function returned) stands for ABTI_sched_has_to_stop answering yes and
        thread_main_sched_func's re-test: `nStop` (if still in the loop) and `nMsf true`.
    Prints nothing for accepted lines, `REJECT <n> <line> | ...` for the first rejected one (later lines are ignored),
@@ -71,10 +72,9 @@ def settle (s : St) (a : Actor) : Nat → St
     | some s' => settle s' a n
     | none => s
 
-/-- before a scheduler-level line: what happened before the stream had a name -/
-def nEnter (s : St) (wantRoot : Bool) : St :=
-  let s1 := if s.npc = .out ∧ s.x.tpc = .start then (step s (.ctx (.tau .T))).getD s else s
-  if wantRoot ∧ s1.npc = .root then (step s1 .nRoot).getD s1 else s1
+/-- before a scheduler-level line: the start-up assertion of a new native thread leaves no line -/
+def nEnter (s : St) (_wantRoot : Bool) : St :=
+  if s.npc = .out ∧ s.x.tpc = .start then (step s (.ctx (.tau .T))).getD s else s
 
 /-- before the caller's `lock`: it has entered the context function stream.c calls next -/
 def cEnter (s : St) : St :=
@@ -119,7 +119,7 @@ def handle (s : St) (ws : List String) : Option R :=
   | ["cancel"] => some (one s .cancel)
   | ["getState", t] => do let t ← b t; pure (one s (.getState t))
   | ["push"] => some (one s .push)
-  | ["nRoot"] => some (one (nEnter s false) .nRoot)
+  | ["nRoot", c] => do let c ← b c; pure (one (nEnter s false) (.nRoot c))
   | ["nLoadReq", j, c] => do let j ← b j; let c ← b c; pure (one (nEnter s true) (.nLoadReq j c))
   | ["nSetFin"] => some (one (nEnter s true) .nSetFin)
   | ["nSetExit"] => some (one (nEnter s true) .nSetExit)
